@@ -318,3 +318,21 @@ func TestZZWitnessD9(t *testing.T) {
 		t.Errorf("D9: second local timestamp instant")
 	}
 }
+
+func TestZZWitnessD12(t *testing.T) {
+	// record (20) with compressed_speed_distance (field 8, 3 bytes): distance 5 then 9 (12-bit counter)
+	csd := func(dist uint16) []byte { return []byte{0x01, 0x00, byte(dist&0x0F) << 4, byte(dist >> 4)} }
+	in := zzFile(zzFileID(4), zzDefMsg(1, 0, 20, zzDef{8, 3, 0x0D}), csd(5), csd(9))
+	var got [][]uint32
+	for k := 0; k < 2; k++ {
+		f, err := Decode(bytes.NewReader(in))
+		if err != nil {
+			t.Fatal(err)
+		}
+		a, _ := f.Activity()
+		got = append(got, []uint32{a.Records[0].Distance, a.Records[1].Distance})
+	}
+	if got[0][0] != got[1][0] || got[0][1] != got[1][1] {
+		t.Errorf("D12: decoding the same bytes twice gives %v then %v", got[0], got[1])
+	}
+}
